@@ -638,7 +638,7 @@ func (p *parser) scanString(offset int) (string, error) {
 		p.read()
 		switch {
 		case chr == '\\':
-			if quote == '/' {
+			if isRegExp { // also inside a class, where quote is the sentinel
 				if p.chr == '\n' || p.chr == '\r' || p.chr == '\u2028' || p.chr == '\u2029' || p.chr < 0 {
 					goto newline
 				}
